@@ -47,8 +47,20 @@ def generate(engine: Engine, target) -> FnReport:
     return rep
 
 
-def vc_text(engine, ob, defs=None, fuel=None, get_values=(), nl="exact"):
-    return engine.ctx.vc_text(ob.hyps, ob.goal, defs=defs or ob.defs, fuel=fuel or ob.fuel, get_values=get_values, nl=nl)
+def _has_quant(t):
+    from . import smt
+
+    return any(x.op in ("forall", "exists") for x, _ in smt.subterms(t))
+
+
+def vc_text(engine, ob, defs=None, fuel=None, get_values=(), nl="exact", axioms=True, seq="real", focus=False):
+    keep = None
+    if focus:
+        # "focus": of the quantified hypotheses only preconditions and ghost cuts are kept (the cuts summarise callee
+        # postconditions and loop invariants); dropping hypotheses is sound
+        origin = engine.hyp_origin
+        keep = lambda h: origin.get(str(h)) in ("cut", "pre") or not _has_quant(h)
+    return engine.ctx.vc_text(ob.hyps, ob.goal, defs=defs or ob.defs, fuel=fuel or ob.fuel, get_values=get_values, nl=nl, extra_axioms=axioms, seq=seq, keep=keep)
 
 
 def discharge(engine: Engine, reports, schedule=None, both=False, workers=16):
@@ -74,7 +86,7 @@ def discharge(engine: Engine, reports, schedule=None, both=False, workers=16):
             return o
         # ground definitional instances first: fewer axioms, so 'unsat' is a proof and 'sat' is a cheap hint
         gtxt = vc_text(engine, o, defs="ground", fuel=max(2, o.fuel))
-        ref = solver.solve_text(gtxt, schedule=(("z3", 5),))
+        ref = solver.solve_text(gtxt, schedule=(("z3", 3),))
         o.refute = ref
         ab = None
         if ref.status != "unsat" and "nlmul" in gtxt.split("(check-sat)")[0].split("\n", 3)[-1]:
@@ -88,6 +100,30 @@ def discharge(engine: Engine, reports, schedule=None, both=False, workers=16):
             ab.attempts = [("z3-ground", ref.status, round(ref.time_s, 3))] + ab.attempts
             res = ab
         else:
+            light = None
+            if ref.status != "sat" and engine.ctx.heavy_axioms:
+                # same VC without the axioms that make E-matching explode (sound: fewer hypotheses)
+                light = solver.solve_text(vc_text(engine, o, axioms="light"), schedule=(("z3", 4), ("cvc5", 6)))
+            if light is not None and light.status != "unsat" and "seq." in txt:
+                # sequences abstracted to an uninterpreted sort with nth / len (sound weakening; quantified seq.nth reasoning is slow)
+                l2 = solver.solve_text(vc_text(engine, o, axioms="light", seq="abstract"), schedule=(("z3", 4), ("cvc5", 6)))
+                if l2.status == "unsat":
+                    l2.solver = l2.solver + "(sequences abstracted)"
+                    l2.attempts = light.attempts + l2.attempts
+                    light = l2
+            if light is not None and light.status != "unsat" and o.kind in ("post", "assert", "inv-preserve", "call-pre"):
+                l3 = solver.solve_text(vc_text(engine, o, axioms="light", focus=True, seq="abstract" if "seq." in txt else "real"), schedule=(("z3", 4), ("cvc5", 6)))
+                if l3.status == "unsat":
+                    l3.solver = l3.solver + "(focus: only preconditions, cuts and quantifier-free facts)"
+                    l3.attempts = light.attempts + l3.attempts
+                    light = l3
+            if light is not None and light.status == "unsat":
+                light.solver = light.solver + "(light axioms)"
+                light.attempts = [("z3-ground", ref.status, round(ref.time_s, 3))] + light.attempts
+                light.time_s += ref.time_s
+                o.result = light
+                o.ok = True
+                return o
             rest = schedule[:2] if ref.status == "sat" else schedule
             res = solver.solve_text(txt, schedule=rest)
             if res.status != "unsat" and ref.status != "sat":
@@ -114,7 +150,8 @@ def discharge(engine: Engine, reports, schedule=None, both=False, workers=16):
 
     def rescue(o):
         long = (("z3", 60), ("cvc5", 90))
-        tries = [(vc_text(engine, o, defs="ground", fuel=max(2, o.fuel)), "(ground-defs)"),
+        tries = [(vc_text(engine, o, axioms="light"), "(light axioms)"),
+                 (vc_text(engine, o, defs="ground", fuel=max(2, o.fuel)), "(ground-defs)"),
                  (vc_text(engine, o), ""),
                  (vc_text(engine, o, defs="ground", fuel=max(2, o.fuel), nl="abstract"), "(ground-defs, products abstracted)")]
         for txt, tag in tries:
